@@ -16,7 +16,7 @@
 (* against mem = Restrict(pre) (NOT against what the broker restored): session present and      *)
 (* redelivery on reconnect, expiry ticks, retained replay to a new subscriber, delivery of new  *)
 (* publishes through the restored subscriptions and to nobody else.                             *)
-EXTENDS Storage, Json, IOUtils, SequencesExt, FiniteSetsExt
+EXTENDS StorageKV, Json, IOUtils, SequencesExt, FiniteSetsExt
 
 Trace   == ndJsonDeserialize(IOEnv.VERIF_TRACE)
 OutFile == IOEnv.VERIF_OUT
